@@ -46,13 +46,25 @@ NEGATIVE_CONTROLS = [
     {"patch": "nc8_legacy_scriptfunc_result_sorted_deduplicated.diff",
      "what": "ScriptFunc returns its segments sorted by begin and without exact duplicates (fresh array)",
      "needed": "canonical comparison"},
+    {"patch": "nc9_timer_never_purges.diff",
+     "what": "UpdateTimerHandler no longer calls PurgeSegments (the past is kept for ever)",
+     "needed": "ALARMED first (what=timer-region): after a timer run only the answers from the cut-off on are compared (segments clipped at the cut-off, "
+               "valid_begin only as far as it lies after it); the tick specification accepts any window begin <= now"},
+    {"patch": "nc10_timer_keeps_two_hours_of_past.diff",
+     "what": "UpdateTimerHandler purges at now - 7200 instead of now - 3600",
+     "needed": "same as nc9"},
+    {"patch": "nc11_timer_iterates_periods_in_reverse_order.diff",
+     "what": "UpdateTimerHandler goes through the periods in reverse registration order",
+     "needed": "ALARMED first (spec clause fed with the wrong merge inputs): the order of a timer run is taken from the order in which the update functions were "
+               "actually asked, not from ConfigType::GetObjectsByType; for periods whose function was not asked the model returns the allowed set"},
 ]
 
 
 class C08(Check):
     prop = "C08"
     required_theorems = ["canon_preserves_inside", "canon_eq_same_denotation", "addSeg_union", "addSeg_comm", "removeSeg_diff", "removeSeg_sound", "updateRegion_spec", "nested_forest_spec",
-                         "outside_window_inside", "updateRegion_window", "nth_weekday_correct", "nth_weekday_agrees_with_spec",
+                         "outside_window_inside", "updateRegion_window", "start_spec", "purge_keeps_future", "timerTick_spec",
+                         "refs_agree_partial", "start_order_counterexample", "nth_weekday_correct", "nth_weekday_agrees_with_spec",
                          "weekday_next_correct", "isInTimeRange_calendar_days", "tz_hypotheses_satisfiable", "day_loop_covers",
                          "scriptFunc_spec", "dayMatches_single", "dayMatches_weekday", "dayMatches_date", "dayMatches_nthWeekday",
                          "dayMatches_range"]
@@ -65,6 +77,11 @@ class C08(Check):
                   "(window covers the region, outside the window inside, inside the window (own+includes)-excludes resp. (own-excludes)+includes) with no "
                   "hypothesis beyond non-empty segments; segment lists are compared in canonical form (canon_preserves_inside: equal canonical forms cover the same "
                   "instants, so a differently split list is no difference while a different union is); nested_forest_spec lifts this by mutual induction to include/exclude forests of any depth. "
+                  "Activation and the 300 s timer are modelled: start_spec (TimePeriod::Start = clearing update of now..now+24h), purge_keeps_future (PurgeSegments changes no "
+                  "answer from the cut-off on, for every state), timerTick_spec (one UpdateTimerHandler run - purge + non-clearing update from valid_end - satisfies the executable "
+                  "tick specification for every state, inputs and clock value: window reaches from now to now+24h, formula at every instant from the cut-off on, nothing changes when "
+                  "nothing is refreshed). Agreement with the referenced periods THEMSELVES (their own current answers instead of the merged lists) holds only under the hypothesis "
+                  "that they had been computed for the instant before they were merged (refs_agree_partial); start_order_counterexample is the model-level witness of F-C08c. "
                   "Calendar layer (token-level core; the string reader is tied by correspondence): for every entry list, window and time-zone parameter with "
                   "23-46 h days, scriptFunc_spec - an instant lies in a returned segment iff a local day of the window matches an entry's day definition and "
                   "the instant lies in one of its ranges on that day; day_loop_covers - the loop visits exactly the local days of the window, once, in order; "
@@ -78,14 +95,21 @@ class C08(Check):
         "calendar layer (LegacyTimePeriod::ScriptFunc, ParseTimeSpec/ParseTimeRange/FindNthWeekday/IsInTimeRange/ProcessTimeRanges): literal model + declarative predicate, "
         "theorems are about the token-level core; the string reader (readSpecTok/readDayDef/readTimeRanges) and the month-day forms' closed meaning are tied by "
         "differential execution and by the independent declarative predicate calSpec evaluated on the implementation's output",
-        "not modelled: PurgeSegments and the 300 s update timer (non-clearing UpdateRegion itself is modelled and proved), Convert::ToLong corner cases beyond sign+digits, "
-        "range boundaries inside a skipped or repeated local hour (excluded by the property)",
+        "modelled and proved per period: TimePeriod::Start, PurgeSegments, one UpdateTimerHandler run; driven through the real Activate() and the real timer "
+        "(Timer::VerifFireDue under the virtual clock). Oracle inputs of a timer run: whether the timer was due, the order in which the update functions were asked; "
+        "when a referenced period whose update function was not asked was purged cannot be observed - the model returns the allowed set (both)",
+        "after a timer run only the answers from the purge cut-off (now - 1 h) on are compared and specified: the window may reach back into the purged past "
+        "(merging a straddling or not yet purged segment of a referenced period widens valid_begin again) where the period's own segments are gone",
+        "not modelled: Convert::ToLong corner cases beyond sign+digits, range boundaries inside a skipped or repeated local hour (excluded by the property), "
+        "GetIsInside()/FindNextTransition consumers, fractional time stamps",
     ]
     assumptions = [
         "segment boundaries are integers (exact in binary64)",
         "only the covered set of a segment list is property-relevant: implementation and model lists are compared after canonicalisation (empty dropped, sorted, "
         "overlapping/touching merged), and each model step starts from the implementation's observed state",
-        "included/excluded periods were updated before the period that refers to them (the harness updates leaves first)",
+        "updateRegion_spec / timerTick_spec take the included/excluded periods as the segment lists that were merged; that those lists are what the referenced periods "
+        "mean at the instant is NOT assumed any more but checked (clause inside_agrees_with_included_and_excluded_periods, calendar periods through Start/timer/UpdateRegion) "
+        "- it fails on the unchanged tree when the referenced period is computed later (F-C08c, known finding)",
         "every stored and supplied segment has begin < end (ProcessTimeRanges skips empty ranges); the region satisfies begin <= end",
         "range boundaries are local times that exist exactly once; local midnight exists exactly once in the probed zones",
     ]
@@ -110,7 +134,7 @@ class C08(Check):
     def _key(l):
         """Class of a SPECFAIL line: everything but positions and the witness instant."""
         kv = core.parse_kv(l)
-        return tuple((k, kv.get(k, "")) for k in ("clause", "impl", "expected", "corr_ok"))
+        return tuple((k, kv.get(k, "")) for k in ("clause", "impl", "expected", "corr_ok", "stale_reference"))
 
     def _fails_same(self, harness, driver, lines, prefix, key=None):
         out = self._replay_lines(harness, driver, lines)
@@ -207,6 +231,10 @@ class C08(Check):
             if tz == "Europe/Berlin":
                 res.samples += ["..."] + [l[:300] for l in runner.extract_case(save, 12)[:6]]
         res.stats = totals
+        if totals.get("timer_runs", 0) == 0 or totals.get("timer_not_fired", 0) * 2 > totals.get("timer_runs", 0) or totals.get("starts", 0) == 0 \
+                or totals.get("timer_purged", 0) == 0 or totals.get("refs_checked", 0) == 0:
+            raise core.TieBroken("harness:c08:timer-not-driven", "the real Start / update timer was not exercised: " +
+                                 " ".join(f"{k}={totals.get(k, 0)}" for k in ("starts", "timer_runs", "timer_not_fired", "timer_purged", "refs_checked")))
         res.evaluations = totals.get("updates", 0) + totals.get("queries", 0) + totals.get("scripts", 0)
         res.distinct_nontrivial = totals.get("nontrivial", 0)
         res.traces_validated = totals.get("cases", 0)
@@ -215,9 +243,13 @@ class C08(Check):
         res.rule = (f"interval algebra, exhaustive: every own list of 1-2 segments x one excluded segment x (no / one included segment) x prefer_includes over the "
                     f"endpoint alphabet 0..{n}, IsInside at every instant -1..{n + 1}; seeded random: 3 own x 2 excluded x 2 included segments over 0..6, nested "
                     "include/exclude forests of 2-6 periods (aligned and unaligned endpoints, missing names, non-clearing follow-up updates), IsInside at every "
-                    "boundary +-1, window bounds +-1 and random instants. Calendar: per time zone (UTC, Europe/Berlin, America/New_York, Australia/Lord_Howe, "
+                    "boundary +-1, window bounds +-1 and random instants; nested periods activated through the real Start (random definition and activation order, some left inactive) "
+                    "and kept up to date by 1-5 runs of the real update timer with clock jumps of 5 min .. 14 h, IsInside at every boundary +-1, cut-off +-1, now+24h +-1. Calendar: per time zone (UTC, Europe/Berlin, America/New_York, Australia/Lord_Howe, "
                     "Asia/Kolkata) seeded ranges dictionaries over all specification forms, windows on DST-change days, month ends and leap days, directly through "
-                    "ScriptFunc and through UpdateRegion with legacy includes/excludes; IsInside at every range boundary +-1 s and random instants. "
+                    "ScriptFunc and through UpdateRegion with legacy includes/excludes; IsInside at every range boundary +-1 s and random instants; every day definition that names a "
+                    "month or counts from the end of the month (every month x every weekday for the last / 5th weekday, month-day forms, ranges) over every day of one whole year per zone; "
+                    "production shape: legacy periods with a legacy exclude/include started through Start at a random time of day (either order) and run through 2-7 timer runs on and around "
+                    "every UTC-offset change 2024-2029 and on ordinary days. "
                     "evaluations = UpdateRegion + IsInside + ScriptFunc calls compared; a case is non-trivial when an include/exclude/calendar computation "
                     "changed the segment list (distinct by hash, counted by the Lean driver)")
         res.extra = {"time_zones": TZS}
@@ -225,9 +257,28 @@ class C08(Check):
 
     # -------------------------------------------------------------------------------------------
     def matches_known(self, entry, finding):
-        """F-C08a (commit 9b846ed) and F-C08b (commit 3f58d09) are fixed; there is no known finding and hence no
-        classifier: every spec failure of C08 is a violation."""
-        return False
+        """F-C08a (commit 9b846ed) and F-C08b (commit 3f58d09) are fixed.  F-C08c (known): a period merged a referenced
+        period before that period had been computed for the instant concerned.  Narrow: only failures of the agreement
+        clause, on a minimised witness whose every driver line is that clause with stale_reference=1 (the driver sets it
+        only when the window a referenced period had when it was last merged did not contain the witness instant) and
+        on which model and implementation agree.  The same clause with stale_reference=0, every other clause and every
+        model/implementation difference remain violations."""
+        if entry.get("classifier") != "c08_reference_merged_before_computed" or finding.kind != "spec":
+            return False
+        clause = "inside_agrees_with_included_and_excluded_periods"
+        if not finding.what.startswith("spec:C08:" + clause + ":"):
+            return False
+        drv = finding.detail.get("driver") or []
+        if not drv:
+            return False
+        for l in drv:
+            kv = core.parse_kv(l)
+            if not l.startswith("SPECFAIL") or kv.get("clause") != clause or kv.get("stale_reference") != "1" \
+                    or kv.get("corr_ok") != "1":
+                return False
+        # the witness goes through the production entry points (Start / timer), not through a bare UpdateRegion
+        ops = [l for l in finding.case_lines if l[:2] in ("A ", "T ", "U ")]
+        return bool(ops) and all(l[:2] in ("A ", "T ") for l in ops)
 
     def replay(self, path, harness, driver):
         data = json.load(open(path))
